@@ -131,7 +131,7 @@ Proof.
 Qed.
 Theorem primary_certifies uids user f : flags_primary uids user = FOk f -> Z.land CERTIFY f <> 0.
 Proof.
-  unfold flags_primary. destruct user as [s|].
+  unfold flags_primary, flags_primary_with. destruct user as [s|].
   - destruct (get_uid uids s); [|discriminate]. intros [= <-]. apply land_certify_lor.
   - destruct uids; intros [= <-]; [discriminate|apply land_certify_lor].
 Qed.
@@ -189,7 +189,7 @@ Proof.
   intros Hp Hpr Hu. unfold perform, perform_with. rewrite Hp, Hpr, Hu. cbn [negb length Nat.eqb andb].
   destruct o; cbn [is_certify negb]; split; try congruence; try (intros; reflexivity).
   intros H _. revert H.
-  unfold usage_with. cbn. unfold comp_flags_with. rewrite Hpr, Hu. unfold flags_primary.
+  unfold usage_with. cbn. unfold comp_flags_with. rewrite Hpr, Hu. unfold flags_primary_with.
   destruct user as [s|]; cbn; [discriminate|]. destruct (check_attributes k OCertify); discriminate.
 Qed.
 (* ... and its first self-certification goes through on the primary key when the key form allows *)
@@ -261,11 +261,11 @@ Proof. intros H x Hx. apply (find_none _ _ H). apply in_rev in Hx. exact Hx. Qed
 
 Definition by_created (a b : sigr) : Prop := s_created a <= s_created b.
 
-(* with the signatures stored in creation order, `newest` is a qualifying signature of maximal creation time *)
-Theorem newest_most_recent l s : StronglySorted by_created l -> newest l = Some s ->
-  In s l /\ s_qual s = true /\ forall s', In s' l -> s_qual s' = true -> s_created s' <= s_created s.
+(* with the signatures stored in creation order, the last one satisfying p is one of maximal creation time among those satisfying p *)
+Lemma last_match_most_recent (p : sigr -> bool) l s : StronglySorted by_created l -> find p (rev l) = Some s ->
+  In s l /\ p s = true /\ forall s', In s' l -> p s' = true -> s_created s' <= s_created s.
 Proof.
-  intros Hs H. unfold newest in H. destruct (find_rev_split _ _ _ H) as (l1 & l2 & -> & Hq & Hno).
+  intros Hs H. destruct (find_rev_split _ _ _ H) as (l1 & l2 & -> & Hq & Hno).
   split; [apply in_or_app; right; left; reflexivity|]. split; [exact Hq|].
   intros s' Hin Hq'. apply in_app_or in Hin as [Hin|[<-|Hin]].
   - clear H Hno. induction l1 as [|x r IH]; [contradiction|]. cbn in Hs. inversion Hs as [|? ? Hs' Hall]; subst.
@@ -273,6 +273,20 @@ Proof.
     rewrite Forall_forall in Hall. apply Hall. apply in_or_app. right. left. reflexivity.
   - lia.
   - rewrite Forall_forall in Hno. rewrite (Hno s' Hin) in Hq'. discriminate.
+Qed.
+
+(* `newest` is a qualifying signature of maximal creation time *)
+Theorem newest_most_recent l s : StronglySorted by_created l -> newest l = Some s ->
+  In s l /\ s_qual s = true /\ forall s', In s' l -> s_qual s' = true -> s_created s' <= s_created s.
+Proof. intros Hs H. exact (last_match_most_recent s_qual l s Hs H). Qed.
+
+(* `newest_cert` (PGPUID.selfsig) is a certification issued by the key, of maximal creation time among those *)
+Theorem newest_cert_most_recent l s : StronglySorted by_created l -> newest_cert l = Some s ->
+  In s l /\ s_qual s = true /\ s_cert s = true /\
+  forall s', In s' l -> s_qual s' = true -> s_cert s' = true -> s_created s' <= s_created s.
+Proof.
+  intros Hs H. destruct (last_match_most_recent _ l s Hs H) as (H1 & H2 & H3). cbv beta in H2. apply andb_true_iff in H2 as [Hc Hq].
+  repeat split; auto. intros s' Hin Hq' Hc'. apply H3; [exact Hin|]. cbv beta. rewrite Hc', Hq'. reflexivity.
 Qed.
 
 Theorem flags_most_recent sigs f : StronglySorted by_created sigs -> flags_sub sigs = FOk f ->
@@ -292,20 +306,48 @@ Proof.
 Qed.
 
 Theorem selfsig_most_recent u : StronglySorted by_created (u_sigs u) ->
-  (exists s, In s (u_sigs u) /\ s_qual s = true /\ selfsig_flags u = s_flags s /\
-             forall s', In s' (u_sigs u) -> s_qual s' = true -> s_created s' <= s_created s)
-  \/ ((forall s, In s (u_sigs u) -> s_qual s = false) /\ selfsig_flags u = 0).
+  (exists s, In s (u_sigs u) /\ s_qual s = true /\ s_cert s = true /\ selfsig_flags u = s_flags s /\
+             forall s', In s' (u_sigs u) -> s_qual s' = true -> s_cert s' = true -> s_created s' <= s_created s)
+  \/ ((forall s, In s (u_sigs u) -> s_qual s = true -> s_cert s = false) /\ selfsig_flags u = 0).
 Proof.
-  intros Hs. unfold selfsig_flags. destruct (newest (u_sigs u)) as [s|] eqn:E.
-  - left. destruct (newest_most_recent _ _ Hs E) as (H1 & H2 & H3). exists s. auto.
-  - right. split; [|reflexivity]. apply find_rev_none. exact E.
+  intros Hs. unfold selfsig_flags, selfsig_flags_with. destruct (newest_cert (u_sigs u)) as [s|] eqn:E.
+  - left. destruct (newest_cert_most_recent _ _ Hs E) as (H1 & H2 & H3 & H4). exists s. auto.
+  - right. split; [|reflexivity]. intros s Hin Hq. pose proof (find_rev_none _ _ E s Hin) as H. cbv beta in H.
+    rewrite Hq, andb_true_r in H. exact H.
+Qed.
+
+(* a signature that is not a certification (a certification revocation, an attestation), wherever it stands among the signatures of
+   the user id and whatever flags it carries, does not change the flags read from the user id *)
+Theorem selfsig_ignores_noncert ids l1 x l2 : s_cert x = false ->
+  selfsig_flags {| u_ids := ids; u_sigs := l1 ++ x :: l2 |} = selfsig_flags {| u_ids := ids; u_sigs := l1 ++ l2 |}.
+Proof.
+  intros Hx. unfold selfsig_flags, selfsig_flags_with, newest_cert. cbn [u_sigs].
+  rewrite !rev_app_distr. cbn [rev]. rewrite <- app_assoc, !find_app. cbn [app find]. rewrite Hx. reflexivity.
+Qed.
+
+(* the rule before repair 812bc0f (newest signature of any type by the key) is refuted: an identity certified for signing and
+   revoked afterwards - the key still signs, the old rule read the revocation and refused; conversely a revocation that carries
+   a KeyFlags subpacket granted what no certification grants *)
+Definition cert_then_rev (fc fr : Z) : list sigr :=
+  [ {| s_created := 0; s_flags := fc; s_qual := true; s_cert := true |}; {| s_created := 5; s_flags := fr; s_qual := true; s_cert := false |} ].
+Definition rev_key (fc fr : Z) : pkey :=
+  {| k_present := true; k_primary := true; k_uids := [ {| u_ids := [97]; u_sigs := cert_then_rev fc fr |} ];
+     k_bind := []; k_subs := []; k_public := false; k_protected := false; k_unl := false; k_enforce := true |}.
+Lemma selfsig_old_refuted :
+  (forall fc fr, StronglySorted by_created (cert_then_rev fc fr)) /\
+  selfsig_flags {| u_ids := [97]; u_sigs := cert_then_rev SIGN 0 |} = SIGN /\
+  selfsig_flags_old {| u_ids := [97]; u_sigs := cert_then_rev SIGN 0 |} = 0 /\
+  perform (rev_key SIGN 0) OSign None = Run 0 false /\ perform_old_selfsig (rev_key SIGN 0) OSign None = NoUsage /\
+  perform (rev_key 0 SIGN) OSign None = NoUsage /\ perform_old_selfsig (rev_key 0 SIGN) OSign None = Run 0 false.
+Proof.
+  split; [intros; repeat constructor; unfold by_created; cbn; lia|]. repeat split.
 Qed.
 
 (* the code before commit 480b116 took the OLDEST binding: refuted *)
-Definition f7_sigs : list sigr := [ {| s_created := 1; s_flags := 32; s_qual := true |}; {| s_created := 5; s_flags := 2; s_qual := true |} ].
+Definition f7_sigs : list sigr := [ {| s_created := 1; s_flags := 32; s_qual := true; s_cert := false |}; {| s_created := 5; s_flags := 2; s_qual := true; s_cert := false |} ].
 Definition f7_key : pkey :=
   {| k_present := true; k_primary := true;
-     k_uids := [ {| u_ids := [97]; u_sigs := [ {| s_created := 0; s_flags := 32; s_qual := true |} ] |} ];
+     k_uids := [ {| u_ids := [97]; u_sigs := [ {| s_created := 0; s_flags := 32; s_qual := true; s_cert := true |} ] |} ];
      k_bind := []; k_subs := [f7_sigs]; k_public := false; k_protected := false; k_unl := false; k_enforce := true |}.
 
 Lemma flags_most_recent_prefix_refuted :
@@ -315,7 +357,7 @@ Lemma flags_most_recent_prefix_refuted :
 Proof.
   split.
   - repeat constructor; unfold by_created; cbn; lia.
-  - exists 32, {| s_created := 5; s_flags := 2; s_qual := true |}. split; [reflexivity|]. split; [cbn; auto|]. split; [reflexivity|].
+  - exists 32, {| s_created := 5; s_flags := 2; s_qual := true; s_cert := false |}. split; [reflexivity|]. split; [cbn; auto|]. split; [reflexivity|].
     intros s [<-|[<-|[]]] _; cbn; [lia|discriminate].
 Qed.
 (* the same witness end to end: re-binding for signing is honoured now, was ignored before *)
